@@ -1474,7 +1474,7 @@ Proof.
     + cbn [unique_rec unique_defs].
       destruct (List.length vars <=? 4) eqn:E; [apply Nat.leb_le in E; lia|].
       set (n := List.length vars) in *.
-      set (full := String.concat "-" (map vname vars)).
+      set (full := full_name vars).
       set (lines := grid_vars "line-" (nb_lines n) full).
       set (cols := grid_vars "col-" (nb_cols n) full).
       cbn [eval]. rewrite !forallb_app. cbn [forallb]. rewrite !eval_grid_defs.
@@ -1784,16 +1784,146 @@ Proof.
     apply in_map_iff in Hv. destruct Hv as [n [<- _]]. apply okv_pb.
 Qed.
 
+
+
+(* ---- the names of the dummies: lengths ---- *)
+
+Lemma length_append : forall a b, String.length (a ++ b) = String.length a + String.length b.
+Proof. induction a as [|c a IH]; intros b; simpl; [reflexivity|]. rewrite IH. reflexivity. Qed.
+
+Lemma length_esc : forall c, 1 <= String.length (esc c).
+Proof.
+  intros c. unfold esc.
+  repeat match goal with |- context [if ?b then _ else _] => destruct b end; simpl; lia.
+Qed.
+
+Lemma length_qbody : forall s, String.length s <= String.length (qbody s).
+Proof.
+  induction s as [|c s IH]; simpl; [lia|]. rewrite length_append.
+  pose proof (length_esc c). lia.
+Qed.
+
+Lemma length_quote : forall s, String.length s + 2 <= String.length (quote s).
+Proof.
+  intros s. unfold quote. simpl. rewrite length_append. simpl.
+  pose proof (length_qbody s). lia.
+Qed.
+
+Lemma length_concat_in : forall sep l x, In x l -> String.length x <= String.length (String.concat sep l).
+Proof.
+  intros sep. induction l as [|y l IH]; intros x H; [destruct H|].
+  destruct l as [|z l].
+  - destruct H as [->|[]]. simpl. lia.
+  - change (String.concat sep (y :: z :: l)) with (y ++ sep ++ String.concat sep (z :: l))%string.
+    rewrite !length_append. destruct H as [->|H]; [lia|]. specialize (IH x H). lia.
+Qed.
+
+Lemma length_qname : forall w, String.length (vname w) + 2 <= String.length (qname w).
+Proof.
+  intros w. unfold qname. pose proof (length_quote (vname w)).
+  destruct (vdummy w); cbn [String.length]; lia.
+Qed.
+
+Lemma length_full_name : forall ws w, In w ws ->
+  String.length (vname w) + 2 <= String.length (full_name ws).
+Proof.
+  intros ws w H. unfold full_name.
+  pose proof (length_concat_in "-" (map qname ws) (qname w) (in_map qname ws w H)) as L.
+  pose proof (length_qname w). lia.
+Qed.
+
+Lemma length_grid_name : forall kind i full,
+  String.length full < String.length (grid_name kind i full).
+Proof. intros. unfold grid_name. rewrite !length_append. simpl. lia. Qed.
+
+(* ---- where the definitions of unique_defs come from ---- *)
+
+Definition gen_from (ws : list var) (e : var * list var) : Prop :=
+  exists i,
+    (fst e = dummy_var (grid_name "line-" i (full_name ws)) /\
+     snd e = select (fun p => p / nb_cols (List.length ws) =? i) 0 ws) \/
+    (fst e = dummy_var (grid_name "col-" i (full_name ws)) /\
+     snd e = select (fun p => p mod nb_cols (List.length ws) =? i) 0 ws).
+
+Inductive reach (vars : list var) : list var -> Prop :=
+| reach_self : reach vars vars
+| reach_lines : forall ws, reach vars ws ->
+    reach vars (grid_vars "line-" (nb_lines (List.length ws)) (full_name ws))
+| reach_cols : forall ws, reach vars ws ->
+    reach vars (grid_vars "col-" (nb_cols (List.length ws)) (full_name ws)).
+
+Lemma reach_trans : forall a b c, reach a b -> reach b c -> reach a c.
+Proof. intros a b c H1 H2. induction H2; [exact H1|apply reach_lines|apply reach_cols]; assumption. Qed.
+
+Lemma combine_map_seq {A B} : forall (f : nat -> A) (g : nat -> B) s,
+  combine (map f s) (map g s) = map (fun i => (f i, g i)) s.
+Proof. induction s as [|i s IH]; simpl; [reflexivity|]. rewrite IH. reflexivity. Qed.
+
+Lemma unique_defs_gen : forall fuel vars e, In e (unique_defs fuel vars) ->
+  exists ws, reach vars ws /\ 4 < List.length ws /\ gen_from ws e.
+Proof.
+  induction fuel as [|k IH]; intros vars e H; cbn [unique_defs] in H;
+    destruct (List.length vars <=? 4) eqn:E; try destruct H.
+  apply Nat.leb_gt in E.
+  apply in_app_or in H. destruct H as [H|H].
+  - exists vars. split; [constructor|split; [exact E|]].
+    unfold grid_vars, lines_of in H. rewrite combine_map_seq in H. apply in_map_iff in H.
+    destruct H as [i [<- _]]. exists i. left. split; reflexivity.
+  - apply in_app_or in H. destruct H as [H|H].
+    + exists vars. split; [constructor|split; [exact E|]].
+      unfold grid_vars, cols_of in H. rewrite combine_map_seq in H. apply in_map_iff in H.
+      destruct H as [i [<- _]]. exists i. right. split; reflexivity.
+    + apply in_app_or in H. destruct H as [H|H]; apply IH in H;
+        destruct H as [ws [R [L G]]]; exists ws; (split; [|split; [exact L|exact G]]).
+      * eapply reach_trans; [apply reach_lines; constructor|exact R].
+      * eapply reach_trans; [apply reach_cols; constructor|exact R].
+Qed.
+
+(* ---- rank: a dummy is defined from variables with shorter names ---- *)
+
+Definition rank (v : var) : nat := if vdummy v then S (String.length (vname v)) else 0.
+
+Definition ranked (defs : list (var * list var)) : Prop :=
+  forall d l, In (d, l) defs -> vdummy d = true /\ forall m, In m l -> rank m < rank d.
+
+Lemma gen_from_ranked : forall ws d l, gen_from ws (d, l) ->
+  vdummy d = true /\ forall m, In m l -> rank m < rank d.
+Proof.
+  intros ws d l [i H]. simpl in H.
+  assert (Hd : exists kind, d = dummy_var (grid_name kind i (full_name ws)) /\
+                            forall m, In m l -> In m ws).
+  { destruct H as [[-> ->]|[-> ->]]; eexists; (split; [reflexivity|]);
+      intros m Hm; apply in_select in Hm; exact Hm. }
+  destruct Hd as [kind [-> Hl]]. split; [reflexivity|]. intros m Hm.
+  unfold rank at 2. simpl. pose proof (length_grid_name kind i (full_name ws)).
+  pose proof (length_full_name ws m (Hl m Hm)). unfold rank. destruct (vdummy m); lia.
+Qed.
+
+Lemma unique_defs_ranked : forall fuel vars, ranked (unique_defs fuel vars).
+Proof.
+  intros fuel vars d l H. apply unique_defs_gen in H. destruct H as [ws [_ [_ G]]].
+  apply (gen_from_ranked ws). exact G.
+Qed.
+
+Lemma ranked_app : forall a b, ranked a -> ranked b -> ranked (a ++ b).
+Proof. intros a b Ha Hb d l H. apply in_app_or in H. destruct H; auto. Qed.
+
+Lemma ranked_flat_map {A} : forall (h : A -> list (var * list var)) l,
+  Forall (fun x => ranked (h x)) l -> ranked (flat_map h l).
+Proof.
+  intros h l HF d l0 H. apply in_flat_map in H. destruct H as [x [Hx H]].
+  rewrite Forall_forall in HF. exact (HF x Hx d l0 H).
+Qed.
+
+Lemma sdefs_ranked : forall s, ranked (sdefs s).
+Proof.
+  induction s as [n| | |g IH|l IH|l IH|a b IHa IHb|a b IHa IHb|a b IHa IHb|names]
+    using sform_ind'; cbn [sdefs]; try (intros d l []); try assumption;
+    try (apply ranked_flat_map; assumption); try (apply ranked_app; assumption).
+  apply unique_defs_ranked.
+Qed.
+
 (* ---- extension of an assignment of the names to the dummies ---- *)
-
-Definition upd (e : var -> bool) (d : var) (b : bool) : var -> bool :=
-  fun v => if var_eqb d v then b else e v.
-
-Fixpoint ext_env (e : var -> bool) (defs : list (var * list var)) : var -> bool :=
-  match defs with
-  | [] => e
-  | (d, l) :: rest => ext_env (upd e d (existsb e l)) rest
-  end.
 
 Lemma vars_eqb_eq : forall a b, vars_eqb a b = true -> a = b.
 Proof.
@@ -1802,53 +1932,113 @@ Proof.
   rewrite H1, (IH b H2). reflexivity.
 Qed.
 
-Lemma existsb_upd : forall e d b l, mem_var d l = false -> existsb (upd e d b) l = existsb e l.
+Lemma vars_eqb_refl : forall a, vars_eqb a a = true.
+Proof. induction a as [|x a IH]; simpl; [reflexivity|]. rewrite var_eqb_refl, IH. reflexivity. Qed.
+
+Definition functional (defs : list (var * list var)) : Prop :=
+  forall d l1 l2, In (d, l1) defs -> In (d, l2) defs -> l1 = l2.
+
+Lemma functional_defs_spec : forall defs, functional_defs defs = true <-> functional defs.
 Proof.
-  intros e d b. induction l as [|x l IH]; simpl; intros H; [reflexivity|].
-  apply orb_false_iff in H. destruct H as [H1 H2]. unfold upd at 1. rewrite H1, (IH H2). reflexivity.
+  induction defs as [|[d l] rest IH]; simpl.
+  - split; [intros _ d l1 l2 []|reflexivity].
+  - rewrite andb_true_iff, IH, forallb_forall. split.
+    + intros [Hh Hr] d0 l1 l2 [H1|H1] [H2|H2].
+      * congruence.
+      * injection H1 as <- <-. specialize (Hh _ H2). simpl in Hh. rewrite var_eqb_refl in Hh.
+        symmetry. apply vars_eqb_eq. exact Hh.
+      * injection H2 as <- <-. specialize (Hh _ H1). simpl in Hh. rewrite var_eqb_refl in Hh.
+        apply vars_eqb_eq. exact Hh.
+      * exact (Hr d0 l1 l2 H1 H2).
+    + intros F. split.
+      * intros [d0 l0] Hin. simpl. destruct (var_eqb d0 d) eqn:E; [|reflexivity].
+        apply var_eqb_eq in E. subst d0.
+        rewrite (F d l0 l (or_intror Hin) (or_introl eq_refl)). apply vars_eqb_refl.
+      * intros d0 l1 l2 H1 H2. apply (F d0); right; assumption.
 Qed.
 
-Lemma ext_env_stable : forall rest e d l x,
-  e d = x -> existsb e l = x ->
-  (forall d' l', In (d', l') rest -> mem_var d' l = false /\ (d' = d -> l' = l)) ->
-  ext_env e rest d = x /\ existsb (ext_env e rest) l = x.
+Fixpoint lookup_def (defs : list (var * list var)) (v : var) : option (list var) :=
+  match defs with
+  | [] => None
+  | (d, l) :: r => if var_eqb d v then Some l else lookup_def r v
+  end.
+
+Lemma lookup_def_in : forall defs v l, lookup_def defs v = Some l -> In (v, l) defs.
 Proof.
-  induction rest as [|[d' l'] rest IH]; intros e d l x Hd Hl Hr; simpl; [auto|].
-  destruct (Hr d' l' (or_introl eq_refl)) as [Hm Heq]. apply IH.
-  - unfold upd. destruct (var_eqb d' d) eqn:E; [|exact Hd].
-    apply var_eqb_eq in E. rewrite (Heq E). exact Hl.
-  - rewrite existsb_upd by exact Hm. exact Hl.
-  - intros d2 l2 H2. apply Hr. right. exact H2.
+  induction defs as [|[d l0] r IH]; simpl; intros v l H; [discriminate|].
+  destruct (var_eqb d v) eqn:E.
+  - apply var_eqb_eq in E. injection H as <-. subst. left. reflexivity.
+  - right. apply IH. exact H.
 Qed.
 
-Lemma ext_env_consistent : forall defs e,
-  good_defs defs = true -> consistentb (ext_env e defs) defs = true.
+Lemma lookup_def_some : forall defs v l, In (v, l) defs -> exists l', lookup_def defs v = Some l'.
 Proof.
-  induction defs as [|[d l] rest IH]; intros e G; [reflexivity|].
-  cbn [good_defs] in G. apply andb_true_iff in G. destruct G as [G Gr].
-  apply andb_true_iff in G. destruct G as [G Gf].
-  apply andb_true_iff in G. destruct G as [Gd Gm]. apply negb_true_iff in Gm.
-  cbn [ext_env consistentb forallb fst snd]. apply andb_true_iff. split; [|apply IH; exact Gr].
-  set (x := existsb e l).
-  destruct (ext_env_stable rest (upd e d x) d l x) as [H1 H2].
-  - unfold upd. rewrite var_eqb_refl. reflexivity.
-  - rewrite existsb_upd by exact Gm. reflexivity.
-  - intros d' l' Hin. rewrite forallb_forall in Gf. specialize (Gf _ Hin). simpl in Gf.
-    apply andb_true_iff in Gf. destruct Gf as [Ga Gb]. apply negb_true_iff in Ga.
-    split; [exact Ga|]. intros ->. rewrite var_eqb_refl in Gb. apply vars_eqb_eq. exact Gb.
-  - rewrite H1, H2. apply eqb_reflx.
+  induction defs as [|[d l0] r IH]; simpl; intros v l H; [destruct H|].
+  destruct (var_eqb d v) eqn:E; [eauto|]. destruct H as [H|H].
+  - injection H as -> _. rewrite var_eqb_refl in E. discriminate.
+  - eapply IH. exact H.
 Qed.
 
-Lemma ext_env_named : forall defs e v,
-  good_defs defs = true -> vdummy v = false -> ext_env e defs v = e v.
+Fixpoint ext_n (e0 : var -> bool) (defs : list (var * list var)) (k : nat) (v : var) : bool :=
+  match k with
+  | O => e0 v
+  | S k' =>
+    match (if vdummy v then lookup_def defs v else None) with
+    | Some l => existsb (ext_n e0 defs k') l
+    | None => e0 v
+    end
+  end.
+
+Lemma existsb_ext_in {A} (f g : A -> bool) l :
+  (forall x, In x l -> f x = g x) -> existsb f l = existsb g l.
 Proof.
-  induction defs as [|[d l] rest IH]; intros e v G Hv; [reflexivity|].
-  cbn [good_defs] in G. apply andb_true_iff in G. destruct G as [G Gr].
-  apply andb_true_iff in G. destruct G as [G _].
-  apply andb_true_iff in G. destruct G as [Gd _].
-  cbn [ext_env]. rewrite IH by assumption. unfold upd.
-  destruct (var_eqb d v) eqn:E; [|reflexivity]. apply var_eqb_eq in E. subst. congruence.
+  induction l as [|x l IH]; intros H; simpl; [reflexivity|].
+  rewrite (H x (or_introl eq_refl)), IH; [reflexivity|]. intros y Hy. apply H. right. exact Hy.
 Qed.
+
+Lemma ext_n_stable : forall e0 defs, ranked defs ->
+  forall n v k1 k2, rank v <= n -> n <= k1 -> n <= k2 -> ext_n e0 defs k1 v = ext_n e0 defs k2 v.
+Proof.
+  intros e0 defs R. induction n as [|n IH]; intros v k1 k2 Hv H1 H2.
+  - assert (Hd : vdummy v = false).
+    { unfold rank in Hv. destruct (vdummy v); [lia|reflexivity]. }
+    destruct k1, k2; simpl; rewrite ?Hd; reflexivity.
+  - destruct k1 as [|k1]; [lia|]. destruct k2 as [|k2]; [lia|]. simpl.
+    destruct (vdummy v) eqn:Hd; [|reflexivity].
+    destruct (lookup_def defs v) as [l|] eqn:E; [|reflexivity].
+    apply lookup_def_in in E. destruct (R _ _ E) as [_ Hm].
+    apply existsb_ext_in. intros m Hin. apply IH; [|lia|lia].
+    specialize (Hm m Hin). lia.
+Qed.
+
+Definition max_rank (defs : list (var * list var)) : nat :=
+  fold_right (fun e acc => Nat.max (rank (fst e)) acc) 0 defs.
+
+Lemma max_rank_in : forall defs d l, In (d, l) defs -> rank d <= max_rank defs.
+Proof.
+  induction defs as [|e r IH]; intros d l H; [destruct H|]. simpl.
+  destruct H as [->|H]; [simpl; lia|]. specialize (IH d l H). lia.
+Qed.
+
+Definition ext_env (e0 : var -> bool) (defs : list (var * list var)) : var -> bool :=
+  ext_n e0 defs (S (max_rank defs)).
+
+Lemma ext_env_consistent : forall defs e0, functional defs -> ranked defs ->
+  consistentb (ext_env e0 defs) defs = true.
+Proof.
+  intros defs e0 F R. unfold consistentb. apply forallb_forall. intros [d l] Hin. simpl.
+  destruct (R _ _ Hin) as [Hd Hm]. unfold ext_env at 1. cbn [ext_n]. rewrite Hd.
+  destruct (lookup_def_some _ _ _ Hin) as [l' E]. rewrite E.
+  rewrite (F d l' l (lookup_def_in _ _ _ E) Hin).
+  replace (existsb (ext_n e0 defs (max_rank defs)) l) with (existsb (ext_env e0 defs) l).
+  - apply eqb_reflx.
+  - apply existsb_ext_in. intros m Hmin. unfold ext_env.
+    pose proof (max_rank_in _ _ _ Hin). specialize (Hm m Hmin).
+    apply (ext_n_stable e0 defs R (max_rank defs)); lia.
+Qed.
+
+Lemma ext_env_named : forall defs e0 v, vdummy v = false -> ext_env e0 defs v = e0 v.
+Proof. intros defs e0 v H. unfold ext_env. simpl. rewrite H. reflexivity. Qed.
 
 Lemma seval_ext : forall e1 e2 s, (forall n, e1 n = e2 n) -> seval e1 s = seval e2 s.
 Proof.
@@ -1864,23 +2054,233 @@ Proof.
   - f_equal. apply map_ext. exact H.
 Qed.
 
+
+
+(* ---- strconv.Quote is uniquely decodable ---- *)
+
+Lemma append_assoc : forall a b c : string, ((a ++ b) ++ c = a ++ (b ++ c))%string.
+Proof. induction a as [|x a IH]; intros b c; simpl; [reflexivity|]. rewrite IH. reflexivity. Qed.
+
+Inductive dstate := DN | DB | DX1 | DX2 (h : N).
+
+Definition hexval (c : ascii) : option N :=
+  let n := N_of_ascii c in
+  if (48 <=? n)%N && (n <=? 57)%N then Some (n - 48)%N
+  else if (97 <=? n)%N && (n <=? 102)%N then Some (n - 87)%N
+  else None.
+
+Definition unesc1 (c : ascii) : option ascii :=
+  let n := N_of_ascii c in
+  if (n =? 34)%N then Some ch_dq
+  else if (n =? 92)%N then Some ch_bs
+  else if (n =? 97)%N then Some (ascii_of_N 7)
+  else if (n =? 98)%N then Some (ascii_of_N 8)
+  else if (n =? 102)%N then Some (ascii_of_N 12)
+  else if (n =? 110)%N then Some (ascii_of_N 10)
+  else if (n =? 114)%N then Some (ascii_of_N 13)
+  else if (n =? 116)%N then Some (ascii_of_N 9)
+  else if (n =? 118)%N then Some (ascii_of_N 11)
+  else None.
+
+Definition dcons (c : ascii) (o : option (string * string)) : option (string * string) :=
+  match o with Some (d, r) => Some (String c d, r) | None => None end.
+
+(* reads an escaped body up to the closing quote: (decoded, rest) *)
+Fixpoint dbody (st : dstate) (s : string) : option (string * string) :=
+  match s with
+  | EmptyString => None
+  | String c r =>
+    match st with
+    | DN => if Ascii.eqb c ch_dq then Some (EmptyString, r)
+            else if Ascii.eqb c ch_bs then dbody DB r
+            else dcons c (dbody DN r)
+    | DB => if Ascii.eqb c "x" then dbody DX1 r
+            else match unesc1 c with
+                 | Some c' => dcons c' (dbody DN r)
+                 | None => None
+                 end
+    | DX1 => match hexval c with Some h => dbody (DX2 h) r | None => None end
+    | DX2 h => match hexval c with
+               | Some l => dcons (ascii_of_N (16 * h + l)) (dbody DN r)
+               | None => None
+               end
+    end
+  end.
+
+Lemma dbody_esc : forall c t, dbody DN (esc c ++ t) = dcons c (dbody DN t).
+Proof.
+  intros [[] [] [] [] [] [] [] []] t; reflexivity.
+Qed.
+
+Lemma dbody_qbody : forall s rest, dbody DN (qbody s ++ String ch_dq rest) = Some (s, rest).
+Proof.
+  induction s as [|c s IH]; intros rest.
+  - reflexivity.
+  - cbn [qbody]. rewrite append_assoc, dbody_esc, IH. reflexivity.
+Qed.
+
+Definition dquoted (s : string) : option (string * string) :=
+  match s with
+  | String c r => if Ascii.eqb c ch_dq then dbody DN r else None
+  | EmptyString => None
+  end.
+
+Lemma dquoted_quote : forall s rest, dquoted (quote s ++ rest) = Some (s, rest).
+Proof.
+  intros s rest. unfold quote. cbn [append dquoted]. rewrite Ascii.eqb_refl.
+  rewrite append_assoc. cbn [append]. apply dbody_qbody.
+Qed.
+
+(* an element of the joined name: d"..." for a dummy, "..." otherwise *)
+Definition dqname (s : string) : option (var * string) :=
+  match s with
+  | String c r =>
+    if Ascii.eqb c "d"
+    then match dquoted r with Some (n, rest) => Some (V n true, rest) | None => None end
+    else match dquoted s with Some (n, rest) => Some (V n false, rest) | None => None end
+  | EmptyString => None
+  end.
+
+Lemma dqname_qname : forall v rest, dqname (qname v ++ rest) = Some (v, rest).
+Proof.
+  intros [n [|]] rest; unfold qname; cbn [vdummy vname].
+  - cbn [append dqname]. rewrite Ascii.eqb_refl, dquoted_quote. reflexivity.
+  - pose proof (dquoted_quote n rest) as H. unfold quote in *. cbn [append] in *.
+    cbn [dqname]. replace (Ascii.eqb ch_dq "d") with false by reflexivity. rewrite H. reflexivity.
+Qed.
+
+(* the joined name determines the list of variables *)
+Definition jtail (l : list var) : string :=
+  match l with [] => EmptyString | _ => ("-" ++ String.concat "-" (map qname l))%string end.
+
+Lemma concat_qname_cons : forall x l,
+  String.concat "-" (map qname (x :: l)) = (qname x ++ jtail l)%string.
+Proof.
+  intros x [|y l]; cbn [map String.concat jtail].
+  - induction (qname x) as [|c q IH]; simpl; [reflexivity|]. rewrite <- IH. reflexivity.
+  - reflexivity.
+Qed.
+
+Lemma qname_nonempty : forall v t, (qname v ++ t)%string <> EmptyString.
+Proof. intros [n [|]] t; unfold qname, quote; simpl; discriminate. Qed.
+
+Lemma full_name_inj : forall a b, full_name a = full_name b -> a = b.
+Proof.
+  unfold full_name. induction a as [|x a IH]; intros [|y b] H.
+  - reflexivity.
+  - rewrite concat_qname_cons in H. exfalso. symmetry in H. exact (qname_nonempty _ _ H).
+  - rewrite concat_qname_cons in H. exfalso. exact (qname_nonempty _ _ H).
+  - rewrite !concat_qname_cons in H.
+    assert (E : dqname (qname x ++ jtail a) = dqname (qname y ++ jtail b)) by (rewrite H; reflexivity).
+    rewrite !dqname_qname in E. injection E as -> E. f_equal.
+    destruct a as [|a0 a], b as [|b0 b]; cbn [jtail] in E; try discriminate; [reflexivity|].
+    simpl in E. injection E as E. apply IH. exact E.
+Qed.
+
+(* ---- "<kind><i>-<full>" determines kind, i and full ---- *)
+
+Definition is_digit (c : ascii) : bool :=
+  ((48 <=? N_of_ascii c) && (N_of_ascii c <=? 57))%N.
+
+Fixpoint all_digits (s : string) : bool :=
+  match s with EmptyString => true | String c r => is_digit c && all_digits r end.
+
+Lemma string_of_uint_digits : forall d, all_digits (NilEmpty.string_of_uint d) = true.
+Proof. induction d; simpl; auto. Qed.
+
+Lemma dec_digits : forall n, all_digits (dec n) = true.
+Proof. intros n. apply string_of_uint_digits. Qed.
+
+Lemma digits_dash_split : forall s1 s2 x y,
+  all_digits s1 = true -> all_digits s2 = true ->
+  (s1 ++ String "-" x)%string = (s2 ++ String "-" y)%string -> s1 = s2 /\ x = y.
+Proof.
+  induction s1 as [|c s1 IH]; intros [|c2 s2] x y D1 D2 H; simpl in *.
+  - injection H as H. auto.
+  - injection H as Hc _. subst c2. simpl in D2. discriminate.
+  - injection H as Hc _. subst c. simpl in D1. discriminate.
+  - injection H as Hc H. subst c2.
+    apply andb_true_iff in D1. apply andb_true_iff in D2.
+    destruct (IH s2 x y (proj2 D1) (proj2 D2) H) as [-> ->]. auto.
+Qed.
+
+Lemma grid_name_inj : forall k1 k2 i1 i2 f1 f2,
+  (k1 = "line-" \/ k1 = "col-")%string -> (k2 = "line-" \/ k2 = "col-")%string ->
+  grid_name k1 i1 f1 = grid_name k2 i2 f2 -> k1 = k2 /\ i1 = i2 /\ f1 = f2.
+Proof.
+  intros k1 k2 i1 i2 f1 f2 [-> | ->] [-> | ->] H; unfold grid_name in H; simpl in H;
+    try discriminate; injection H as H;
+    apply digits_dash_split in H; try apply dec_digits;
+    destruct H as [H1 H2]; apply dec_inj in H1; (split; [reflexivity|split; [lia|exact H2]]).
+Qed.
+
+(* ---- two definitions of the same dummy are identical ---- *)
+
+Lemma gen_from_functional : forall ws1 ws2 d l1 l2,
+  gen_from ws1 (d, l1) -> gen_from ws2 (d, l2) -> l1 = l2.
+Proof.
+  intros ws1 ws2 d l1 l2 [i1 G1] [i2 G2]. simpl in G1, G2.
+  assert (K : forall k1 k2, (k1 = "line-" \/ k1 = "col-")%string -> (k2 = "line-" \/ k2 = "col-")%string ->
+              d = dummy_var (grid_name k1 i1 (full_name ws1)) ->
+              d = dummy_var (grid_name k2 i2 (full_name ws2)) ->
+              k1 = k2 /\ i1 = i2 /\ ws1 = ws2).
+  { intros k1 k2 H1 H2 E1 E2. rewrite E1 in E2. injection E2 as E2.
+    destruct (grid_name_inj _ _ _ _ _ _ H1 H2 E2) as [Ek [Ei Ef]].
+    split; [exact Ek|split; [exact Ei|]]. apply full_name_inj. exact Ef. }
+  destruct G1 as [[D1 L1]|[D1 L1]], G2 as [[D2 L2]|[D2 L2]].
+  - destruct (K "line-"%string "line-"%string (or_introl eq_refl) (or_introl eq_refl) D1 D2) as [Ek [Ei Ew]].
+    subst. reflexivity.
+  - destruct (K "line-"%string "col-"%string (or_introl eq_refl) (or_intror eq_refl) D1 D2) as [Ek _].
+    discriminate.
+  - destruct (K "col-"%string "line-"%string (or_intror eq_refl) (or_introl eq_refl) D1 D2) as [Ek _].
+    discriminate.
+  - destruct (K "col-"%string "col-"%string (or_intror eq_refl) (or_intror eq_refl) D1 D2) as [Ek [Ei Ew]].
+    subst. reflexivity.
+Qed.
+
+(* every definition of sdefs is generated from some list of variables *)
+Lemma sdefs_gen : forall s e, In e (sdefs s) -> exists ws, gen_from ws e.
+Proof.
+  induction s as [n| | |g IH|l IH|l IH|a b IHa IHb|a b IHa IHb|a b IHa IHb|names]
+    using sform_ind'; cbn [sdefs]; intros e He; try (destruct He; fail).
+  - exact (IH e He).
+  - apply in_flat_map in He. destruct He as [x [Hx He]]. rewrite Forall_forall in IH.
+    exact (IH x Hx e He).
+  - apply in_flat_map in He. destruct He as [x [Hx He]]. rewrite Forall_forall in IH.
+    exact (IH x Hx e He).
+  - apply in_app_or in He. destruct He; [apply IHa|apply IHb]; assumption.
+  - apply in_app_or in He. destruct He; [apply IHa|apply IHb]; assumption.
+  - apply in_app_or in He. destruct He; [apply IHa|apply IHb]; assumption.
+  - apply unique_defs_gen in He. destruct He as [ws [_ [_ G]]]. exists ws. exact G.
+Qed.
+
+(* Two groups of a formula that share a dummy define it identically: the
+   joined name determines the list of variables (names and dummy flags). *)
+Theorem clash_free_all : forall s, clash_free s = true.
+Proof.
+  intros s. unfold clash_free. apply functional_defs_spec. intros d l1 l2 H1 H2.
+  destruct (sdefs_gen s _ H1) as [ws1 G1]. destruct (sdefs_gen s _ H2) as [ws2 G2].
+  exact (gen_from_functional ws1 ws2 d l1 l2 G1 G2).
+Qed.
+
 (* a satisfying assignment of the names extends to the dummies *)
-Lemma desugar_complete : forall s env, clash_free s = true -> seval env s = true ->
+Lemma desugar_complete : forall s env, seval env s = true ->
   exists env', (forall n, env' (pb_var n) = env n) /\ eval env' (desugar s) = true.
 Proof.
-  intros s env G H. set (e0 := fun v : var => env (vname v)).
+  intros s env H. set (e0 := fun v : var => env (vname v)).
   exists (ext_env e0 (sdefs s)).
   assert (Hn : forall n, ext_env e0 (sdefs s) (pb_var n) = env n).
-  { intros n. rewrite ext_env_named by (exact G || reflexivity). reflexivity. }
+  { intros n. rewrite ext_env_named by reflexivity. reflexivity. }
   split; [exact Hn|].
-  rewrite desugar_consistent by (apply ext_env_consistent; exact G).
-  rewrite <- H. apply seval_ext. intros n. unfold nm. apply Hn.
+  rewrite desugar_consistent.
+  - rewrite <- H. apply seval_ext. intros n. unfold nm. apply Hn.
+  - apply ext_env_consistent; [apply functional_defs_spec; apply clash_free_all|apply sdefs_ranked].
 Qed.
 
 Close Scope nat_scope.
 
 (* ------------------------------------------------------------------ *)
-(* Source level: the two directions, Solve.                             *)
+(* Source level: the two directions.                                    *)
 
 
 Theorem cnf_sound : forall s, positive_unique s = true -> forall m dflt,
@@ -1892,79 +2292,16 @@ Proof.
   exact (proj1 (desugar_polar _ s) Hp H).
 Qed.
 
-Theorem cnf_complete : forall s, clash_free s = true -> forall env, seval env s = true ->
+Theorem cnf_complete : forall s env, seval env s = true ->
   exists m, List.length m = List.length (v_all (c_vars (as_cnf (desugar s)))) /\
             sat_cnf m (c_clauses (as_cnf (desugar s))) = true /\
             forall n i, tbl_get (v_all (c_vars (as_cnf (desugar s)))) (pb_var n) = Some i ->
                         var_val m i = env n.
 Proof.
-  intros s G env H. destruct (desugar_complete s env G H) as [env' [Hn He]].
+  intros s env H. destruct (desugar_complete s env H) as [env' [Hn He]].
   destruct (cnf_complete_form (desugar s) (fv_ok_desugar s) env' He) as [m [L [S C]]].
   exists m. split; [exact L|split; [exact S|]]. intros n i Gi.
   rewrite (C _ _ Gi eq_refl). apply Hn.
-Qed.
-
-(* ---- Solve ---- *)
-
-Lemma nodup_str_NoDup : forall l, nodup_str l = true -> NoDup l.
-Proof.
-  induction l as [|x l IH]; simpl; intros H; [constructor|].
-  apply andb_true_iff in H. destruct H as [H1 H2]. constructor; [|apply IH; exact H2].
-  intros Hin. apply negb_true_iff in H1.
-  assert (E : existsb (String.eqb x) l = true).
-  { apply existsb_exists. exists x. split; [exact Hin|apply String.eqb_refl]. }
-  congruence.
-Qed.
-
-Lemma assoc_mp : forall (m : list bool) (pb : table) v i,
-  NoDup (map (fun e : var * Z => vname (fst e)) pb) -> In (v, i) pb ->
-  assoc_str (map (fun e : var * Z => (vname (fst e), var_val m (snd e))) pb) (vname v)
-  = Some (var_val m i).
-Proof.
-  intros m. induction pb as [|[w j] pb IH]; intros v i ND H; [destruct H|].
-  simpl in ND. inversion ND as [|x xs Hx Hxs]; subst. simpl.
-  destruct H as [H|H].
-  - injection H as -> ->. rewrite String.eqb_refl. reflexivity.
-  - destruct (String.eqb (vname w) (vname v)) eqn:E.
-    + apply String.eqb_eq in E. exfalso. apply Hx. rewrite E.
-      apply in_map_iff. exists (v, i). auto.
-    + apply IH; assumption.
-Qed.
-
-Lemma names_of_complete : forall f m dflt, fv_ok f -> names_distinct f = true ->
-  let c := as_cnf f in
-  let mp := map (fun e : var * Z => (vname (fst e), var_val m (snd e))) (v_pb (c_vars c)) in
-  forall n, names_of c m (complete mp dflt) n = complete mp dflt n.
-Proof.
-  intros f m dflt Hf Hn c mp n. unfold names_of, env_of, env_tbl.
-  destruct (tbl_get (v_all (c_vars c)) (pb_var n)) as [i|] eqn:G; [|reflexivity].
-  destruct (as_cnf_struct f Hf) as [W _]. fold c in W.
-  assert (Gp : tbl_get (v_pb (c_vars c)) (pb_var n) = Some i) by (rewrite pb_get; auto).
-  apply tbl_get_in in Gp. unfold complete at 1.
-  unfold names_distinct in Hn. apply nodup_str_NoDup in Hn. fold c in Hn.
-  pose proof (assoc_mp m _ _ _ Hn Gp) as A. simpl in A. unfold mp. rewrite A. reflexivity.
-Qed.
-
-Theorem solve_correct : forall solve, solver_ok solve -> forall s,
-  match bf_solve solve (desugar s) with
-  | None => clash_free s = true -> forall env, seval env s = false
-  | Some mp => positive_unique s = true -> names_distinct (desugar s) = true ->
-               forall dflt, seval (complete mp dflt) s = true
-  end.
-Proof.
-  intros solve Hok s. unfold bf_solve.
-  set (c := as_cnf (desugar s)).
-  destruct (solve (List.length (v_all (c_vars c))) (cnf_problem (c_clauses c))) as [m|] eqn:E.
-  - intros Hp Hn dflt. destruct (solver_ok_some _ Hok _ _ _ E) as [L S].
-    rewrite sat_cnf_problem in S.
-    set (mp := map (fun e : var * Z => (vname (fst e), var_val m (snd e))) (v_pb (c_vars c))).
-    pose proof (cnf_sound s Hp m (complete mp dflt) S) as H. fold c in H.
-    rewrite <- H. apply seval_ext. intros n. symmetry.
-    apply (names_of_complete (desugar s) m dflt (fv_ok_desugar s) Hn).
-  - intros G env. destruct (seval env s) eqn:H; [|reflexivity]. exfalso.
-    destruct (cnf_complete s G env H) as [m [L [S _]]]. fold c in L, S.
-    apply (solver_ok_none _ Hok _ _ E). exists m. split; [exact L|].
-    rewrite sat_cnf_problem. exact S.
 Qed.
 
 (* ------------------------------------------------------------------ *)
@@ -2267,14 +2604,14 @@ Qed.
 
 Theorem dimacs_models : forall s,
   let d := dimacs_export (desugar s) in
-  (clash_free s = true -> forall env, seval env s = true ->
+  (forall env, seval env s = true ->
      exists m, Z.of_nat (List.length m) = d_nbvars d /\ sat_cnf m (d_clauses d) = true /\
                forall dflt n, In n (map fst (d_names d)) -> restrict d m dflt n = env n) /\
   (positive_unique s = true -> forall m dflt,
      sat_cnf m (d_clauses d) = true -> seval (restrict d m dflt) s = true).
 Proof.
   intros s d. pose proof (fv_ok_desugar s) as Hf. split.
-  - intros G env H. destruct (cnf_complete s G env H) as [m [L [S C]]].
+  - intros env H. destruct (cnf_complete s env H) as [m [L [S C]]].
     exists m. split; [unfold d; simpl; unfold tbl_len; lia|split; [exact S|]].
     intros dflt n Hn. unfold d. rewrite restrict_names_of by exact Hf.
     destruct (dimacs_wellformed (desugar s) Hf) as [_ [_ [_ [_ [_ [_ [Hidx _]]]]]]].
@@ -2658,8 +2995,96 @@ Proof.
 Qed.
 
 (* ------------------------------------------------------------------ *)
-(* Final statements and findings.                                       *)
+(* Solve.                                                               *)
 
+Definition named_entry (e : var * Z) : bool := negb (vdummy (fst e)).
+
+Lemma solve_keys : forall (m : list bool) (pb : table),
+  map fst (map (fun e : var * Z => (vname (fst e), var_val m (snd e))) (filter named_entry pb))
+  = map vname (filter (fun v => negb (vdummy v)) (map fst pb)).
+Proof.
+  intros m. induction pb as [|[w i] pb IH]; [reflexivity|]. unfold named_entry in *. simpl.
+  destruct (vdummy w); simpl; rewrite IH; reflexivity.
+Qed.
+
+Lemma assoc_mp : forall (m : list bool) (pb : table) v i,
+  NoDup (map fst (map (fun e : var * Z => (vname (fst e), var_val m (snd e))) pb)) -> In (v, i) pb ->
+  assoc_str (map (fun e : var * Z => (vname (fst e), var_val m (snd e))) pb) (vname v)
+  = Some (var_val m i).
+Proof.
+  intros m. induction pb as [|[w j] pb IH]; intros v i ND H; [destruct H|].
+  simpl in ND. inversion ND as [|x xs Hx Hxs]; subst. simpl.
+  destruct H as [H|H].
+  - injection H as -> ->. rewrite String.eqb_refl. reflexivity.
+  - destruct (String.eqb (vname w) (vname v)) eqn:E.
+    + apply String.eqb_eq in E. exfalso. apply Hx. rewrite E.
+      apply in_map_iff. exists (vname v, var_val m i). split; [reflexivity|].
+      apply in_map_iff. exists (v, i). auto.
+    + apply IH; assumption.
+Qed.
+
+(* the bindings returned by Solve: one per named variable of the table *)
+Lemma solve_names_nodup : forall f (m : list bool), fv_ok f ->
+  NoDup (map fst (map (fun e : var * Z => (vname (fst e), var_val m (snd e)))
+                      (filter named_entry (v_pb (c_vars (as_cnf f)))))).
+Proof. intros f m Hf. rewrite solve_keys. apply (export_names_nodup f Hf). Qed.
+
+Lemma names_of_complete : forall f m dflt, fv_ok f ->
+  let c := as_cnf f in
+  let mp := map (fun e : var * Z => (vname (fst e), var_val m (snd e)))
+                (filter named_entry (v_pb (c_vars c))) in
+  forall n, names_of c m (complete mp dflt) n = complete mp dflt n.
+Proof.
+  intros f m dflt Hf c mp n. unfold names_of, env_of, env_tbl.
+  destruct (tbl_get (v_all (c_vars c)) (pb_var n)) as [i|] eqn:G; [|reflexivity].
+  destruct (as_cnf_struct f Hf) as [W _]. fold c in W.
+  assert (Gp : tbl_get (v_pb (c_vars c)) (pb_var n) = Some i) by (rewrite pb_get; auto).
+  apply tbl_get_in in Gp.
+  assert (Gf : In (pb_var n, i) (filter named_entry (v_pb (c_vars c)))).
+  { apply filter_In. split; [exact Gp|reflexivity]. }
+  unfold complete at 1.
+  pose proof (assoc_mp m _ _ _ (solve_names_nodup f m Hf) Gf) as A. simpl in A.
+  unfold mp. fold c in A. rewrite A. reflexivity.
+Qed.
+
+Theorem solve_correct : forall solve, solver_ok solve -> forall s,
+  match bf_solve solve (desugar s) with
+  | None => forall env, seval env s = false
+  | Some mp => positive_unique s = true -> forall dflt, seval (complete mp dflt) s = true
+  end.
+Proof.
+  intros solve Hok s. unfold bf_solve.
+  set (c := as_cnf (desugar s)).
+  destruct (solve (List.length (v_all (c_vars c))) (cnf_problem (c_clauses c))) as [m|] eqn:E.
+  - intros Hp dflt. destruct (solver_ok_some _ Hok _ _ _ E) as [L S].
+    rewrite sat_cnf_problem in S.
+    set (mp := map (fun e : var * Z => (vname (fst e), var_val m (snd e)))
+                   (filter (fun e : var * Z => negb (vdummy (fst e))) (v_pb (c_vars c)))).
+    pose proof (cnf_sound s Hp m (complete mp dflt) S) as H. fold c in H.
+    rewrite <- H. apply seval_ext. intros n. symmetry.
+    apply (names_of_complete (desugar s) m dflt (fv_ok_desugar s)).
+  - intros env. destruct (seval env s) eqn:H; [|reflexivity]. exfalso.
+    destruct (cnf_complete s env H) as [m [L [S _]]]. fold c in L, S.
+    apply (solver_ok_none _ Hok _ _ E). exists m. split; [exact L|].
+    rewrite sat_cnf_problem. exact S.
+Qed.
+
+(* the result binds exactly the named variables that survive constant
+   folding, once each (the map does not depend on the iteration order) *)
+Theorem solve_bindings : forall solve f mp, fv_ok f -> bf_solve solve f = Some mp ->
+  NoDup (map fst mp) /\
+  forall n, In n (map fst mp) <-> In (pb_var n) (fvars (nnf f)).
+Proof.
+  intros solve f mp Hf H. unfold bf_solve in H.
+  destruct (solve _ _) as [m|]; [|discriminate]. injection H as <-. split.
+  - apply (solve_names_nodup f m Hf).
+  - intros n. change (fun e : var * Z => negb (vdummy (fst e))) with named_entry.
+    rewrite solve_keys. change (In n (export_names f) <-> In (pb_var n) (fvars (nnf f))).
+    rewrite (export_names_in f n Hf). apply (as_cnf_cover f Hf). reflexivity.
+Qed.
+
+(* ------------------------------------------------------------------ *)
+(* Final statements and findings.                                       *)
 
 (* ---- statements with the boolean side condition of the model ---- *)
 
@@ -2679,11 +3104,15 @@ Proof. intros s. apply fv_okb_ok. apply fv_ok_desugar. Qed.
 
 Theorem solve_ref_correct : forall s,
   match solve_ref (desugar s) with
-  | None => clash_free s = true -> forall env, seval env s = false
-  | Some mp => positive_unique s = true -> names_distinct (desugar s) = true ->
-               forall dflt, seval (complete mp dflt) s = true
+  | None => forall env, seval env s = false
+  | Some mp => positive_unique s = true -> forall dflt, seval (complete mp dflt) s = true
   end.
 Proof. intros s. apply (solve_correct ref_solve ref_solver_ok). Qed.
+
+Theorem solve_bindingsb : forall solve s mp, bf_solve solve (desugar s) = Some mp ->
+  NoDup (map fst mp) /\
+  forall n, In n (map fst mp) <-> In (pb_var n) (fvars (nnf (desugar s))).
+Proof. intros solve s mp. apply solve_bindings. apply fv_ok_desugar. Qed.
 
 Theorem dimacs_wellformedb : forall f, fv_okb f = true ->
   let d := dimacs_export f in
@@ -2707,15 +3136,14 @@ Proof. intros f H. apply as_cnf_used. apply fv_okb_ok. exact H. Qed.
 (* ---- findings ---- *)
 Local Open Scope string_scope.
 
-(* D15: a negated exactly-one group of more than 4 names.  The formula says
-   "a and nothing else, and not exactly one of a..e": unsatisfiable, but
+(* D15 (open): a negated exactly-one group of more than 4 names.  The formula
+   says "a and nothing else, and not exactly one of a..e": unsatisfiable, but
    Solve answers with an assignment. *)
 Definition neg_unique_witness : sform :=
   SAnd [SVar "a"; SNot (SVar "b"); SNot (SVar "c"); SNot (SVar "d"); SNot (SVar "e");
         SNot (SUnique ["a"; "b"; "c"; "d"; "e"])].
 
 Theorem neg_unique_refuted : exists s mp,
-  clash_free s = true /\ names_distinct (desugar s) = true /\
   positive_unique s = false /\
   solve_ref (desugar s) = Some mp /\
   seval (complete mp (fun _ => false)) s = false /\
@@ -2723,43 +3151,16 @@ Theorem neg_unique_refuted : exists s mp,
 Proof.
   exists neg_unique_witness.
   eexists. split; [vm_compute; reflexivity|]. split; [vm_compute; reflexivity|].
-  split; [vm_compute; reflexivity|]. split; [vm_compute; reflexivity|].
   split; [vm_compute; reflexivity|].
   intros env. cbn [seval neg_unique_witness forallb map].
   destruct (env "a"), (env "b"), (env "c"), (env "d"), (env "e"); reflexivity.
 Qed.
 
-(* The dummies of a group are named from the names joined with "-": two
-   different groups can share them, and the conjunction becomes unsatisfiable. *)
+(* Former findings, fixed in bf.go (quoted names and "d" mark in the names of
+   the dummies; dummies left out of the result of Solve): the former witnesses. *)
 Definition clash_witness : sform :=
   SAnd [SUnique ["a-b"; "c"; "d"; "e"; "f"]; SUnique ["a"; "b-c"; "d"; "e"; "f"];
         SVar "a-b"; SVar "b-c"].
 
-Theorem unique_clash_refuted : exists s env,
-  positive_unique s = true /\ names_distinct (desugar s) = true /\
-  clash_free s = false /\
-  solve_ref (desugar s) = None /\ seval env s = true.
-Proof.
-  exists clash_witness.
-  exists (fun n => String.eqb n "a-b" || String.eqb n "b-c").
-  repeat split; vm_compute; reflexivity.
-Qed.
-
-(* A variable of the user can have the name of a dummy: the result map, keyed
-   by name, then receives two bindings for that name (in Go the last one
-   written wins, in map iteration order). *)
 Definition name_clash_witness : sform :=
   SAnd [SVar "line-0-a-b-c-d-e"; SVar "d"; SUnique ["a"; "b"; "c"; "d"; "e"]].
-
-Theorem name_clash_refuted : exists s mp n,
-  clash_free s = true /\ positive_unique s = true /\
-  names_distinct (desugar s) = false /\
-  solve_ref (desugar s) = Some mp /\ In (n, true) mp /\ In (n, false) mp /\
-  (forall env, env n = false -> seval env s = false).
-Proof.
-  exists name_clash_witness. eexists. exists "line-0-a-b-c-d-e".
-  split; [vm_compute; reflexivity|]. split; [vm_compute; reflexivity|].
-  split; [vm_compute; reflexivity|]. split; [vm_compute; reflexivity|].
-  split; [vm_compute; tauto|]. split; [vm_compute; tauto|].
-  intros env H. cbn [seval name_clash_witness forallb]. rewrite H. reflexivity.
-Qed.
